@@ -453,6 +453,11 @@ func runPreRoots(t []string) string {
 		return "bad-op"
 	}
 	shape, c := t[1], capsOf(t[3])
+	// a trailing p: the configuration also names a file to extract (PathsToExtract), which Scan allows with ONE scan root only
+	var paths []string
+	if strings.HasSuffix(shape, "p") {
+		shape, paths = strings.TrimSuffix(shape, "p"), []string{"a.txt"}
+	}
 	fsP, e1 := el.ExtractorsFromNames(unhexList(t[4]))
 	stP, e2 := sl.ExtractorsFromNames(unhexList(t[5]))
 	dP, e3 := dl.DetectorsFromNames(unhexList(t[6]))
@@ -475,9 +480,9 @@ func runPreRoots(t []string) string {
 	for _, p := range dP {
 		dF = append(dF, fakeDet{fake{p.Name(), *p.Requirements()}, p.RequiredExtractors()})
 	}
-	res := preTail(&scalibr.ScanConfig{FilesystemExtractors: fsP, StandaloneExtractors: stP, Detectors: dP, Capabilities: &c, ScanRoots: scanRoots(shape)})
+	res := preTail(&scalibr.ScanConfig{FilesystemExtractors: fsP, StandaloneExtractors: stP, Detectors: dP, Capabilities: &c, ScanRoots: scanRoots(shape), PathsToExtract: paths})
 	c2 := c
-	sr := scalibr.New().Scan(context.Background(), &scalibr.ScanConfig{FilesystemExtractors: fsF, StandaloneExtractors: stF, Detectors: dF, Capabilities: &c2, ScanRoots: scanRoots(shape)})
+	sr := scalibr.New().Scan(context.Background(), &scalibr.ScanConfig{FilesystemExtractors: fsF, StandaloneExtractors: stF, Detectors: dF, Capabilities: &c2, ScanRoots: scanRoots(shape), PathsToExtract: paths})
 	scan := "ok"
 	if sr.Status.Status != plugin.ScanStatusSucceeded {
 		msg := sr.Status.FailureReason
@@ -486,6 +491,8 @@ func runPreRoots(t []string) string {
 			scan = "prefail"
 		case strings.Contains(msg, "no scan root specified"):
 			scan = "noroot"
+		case strings.Contains(msg, "can't extract specific files with several scan roots"):
+			scan = "severalroots"
 		default:
 			scan = "other"
 		}
@@ -773,8 +780,14 @@ func main() {
 	emit("uniq")
 	// scan-root shapes (both tiers): the filtered registry, the filtered defaults and EVERY plugin alone, for every capability
 	// tuple x {no root, a real directory, a virtual file system, both}: requirement validation and a real Scan
-	for _, sh := range []string{"n", "r", "v", "rv"} {
+	for _, sh := range []string{"n", "r", "v", "rv", "np", "vp", "rvp"} {
 		for _, c := range caps {
+			if strings.HasSuffix(sh, "p") { // with PathsToExtract: the registry and the defaults only
+				emit("prer " + sh + " 1 " + c + " " + hx.Hex("all") + " " + hx.Hex("all") + " " + hx.Hex("all"))
+				emit("prer " + sh + " 1 " + c + " " + hx.Hex("default") + " " + hx.Hex("default") + " " + hx.Hex("all"))
+				emit("prer " + sh + " 0 " + c + " " + hx.Hex("default") + " " + hx.Hex("default") + " " + hx.Hex("all"))
+				continue
+			}
 			emit("prer " + sh + " 1 " + c + " " + hx.Hex("all") + " " + hx.Hex("all") + " " + hx.Hex("all"))
 			emit("prer " + sh + " 1 " + c + " " + hx.Hex("default") + " " + hx.Hex("default") + " " + hx.Hex("all"))
 			emit("prer " + sh + " 0 " + c + " " + hx.Hex("default") + " " + hx.Hex("default") + " " + hx.Hex("all"))
